@@ -115,6 +115,7 @@ def run(c):
         c.report("extraction/oracle build failed: " + out[-800:], {"machinery": "oracle"}, no_input=True)
         return
     g = cg.Gen(c.rng)
+    g.doc_types = True      # a share of the documents as bill/order and bill/delivery
     g.calc_only = True      # combos that calculate but would not validate (rate key under a country without regime)
     n = 5000 if quick else 250000
     docs = []
